@@ -179,12 +179,18 @@ class Builder:
         elif k == "etch":
             code = bytes.fromhex("602a5f5260205ff3")  # returns 42
             n = len(code)
-            self.vm_call(CR.S["etch"], [P1, 0x40, n, int.from_bytes(code.ljust(32, b"\0"), "big")])
-            a.push(P1).op("EXTCODESIZE")
+            # onto a fresh address or onto an account that already has code and (possibly) storage
+            tgt = ch.choose([P1, ST_ADDR, ST_ADDR], lbl + ".t")
+            self.vm_call(CR.S["etch"], [tgt, 0x40, n, int.from_bytes(code.ljust(32, b"\0"), "big")])
+            a.push(tgt).op("EXTCODESIZE")
             self.obs()
-            a.push(0x20).push(0x700).push(0).push(0).push(0).push(P1).push(0xFFFF).op("CALL").op("POP")
+            a.push(0x20).push(0x700).push(0).push(0).push(0).push(tgt).push(0xFFFF).op("CALL").op("POP")
             a.push(0x700).op("MLOAD")
             self.obs()
+            for sl in (0, 1, 5):  # etch replaces the code, not the storage
+                self.vm_call(CR.S["load"], [tgt, sl], ret=0x20)
+                a.push(0x600).op("MLOAD")
+                self.obs()
             a.push(P2).op("EXTCODESIZE")
             self.obs()
         elif k == "block":
